@@ -33,14 +33,16 @@ REQUIRED_REACH = [
 ]
 BATCH = 60
 RULE = RULE + corpus.RULE_SUFFIX + w4.RULE_SUFFIX
-REQUIRED_REACH = list(REQUIRED_REACH) + ["class:corpus", "class:w4"]
+REQUIRED_REACH = list(REQUIRED_REACH) + ["class:corpus", "class:w4", "filtercols_mask",
+                                         "class:augmented"]
 
 
 def units(tier, seed):
     n = 900 if tier == "quick" else 60000
     # W1 synthetic surveys, then W3 (fixture corpus) and W4 (integration tests as workload)
-    return [{"i": i, "seed": seed} for i in range(n)] + corpus.units(tier, seed) + w4.units(
-        tier, seed)
+    fc = [{"fc": k, "seed": seed} for k in range(80 if tier == "quick" else 3000)]
+    return [{"i": i, "seed": seed} for i in range(n)] + fc + corpus.units(tier, seed) + \
+        w4.units(tier, seed)
 
 
 def make_case(unit):
@@ -48,6 +50,9 @@ def make_case(unit):
         return corpus.make_case(ID, unit)
     if "w4" in unit:
         return w4.make_case(ID, unit)
+    if "fc" in unit:
+        from .. import filtercols
+        return filtercols.make_case(gen.G("C02/fc/%s/%s" % (unit["seed"], unit["fc"])), "C02")
     i = unit["i"]
     g = gen.G("C02/%s/%s" % (unit["seed"], i))
     template = TEMPLATES[i % len(TEMPLATES)]
@@ -95,6 +100,9 @@ def check_case(case):
         return corpus.check_case(ID, case)
     if case.get("w4"):
         return w4.check_case(ID, case)
+    if case.get("mode") == "filtercols":
+        from .. import filtercols
+        return filtercols.check(case, ID)
     res = CaseResult()
     L0 = cases.realize(case)
     o, spec = L0.oracle, L0.spec
